@@ -116,11 +116,16 @@ class LoopSpec:
     variant(ctx)->z3 Int optional."""
 
     def __init__(self, inv, modifies=(), var_types=None, variant=None, fingerprint=None, ghost=None,
-                 allocates=False):
+                 allocates=False, breaks=None):
         self.inv, self.modifies, self.var_types = inv, list(modifies), dict(var_types or {})
         self.variant, self.fingerprint = variant, fingerprint
         self.ghost = ghost
         self.allocates = allocates   # the body may create objects: the allocation counter is havocked upwards
+        # for/else with break: breaks(ctx, x) -> z3 Bool "the iteration on element x leaves the loop by break".  It must
+        # not depend on state the body changes.  Obligations: a breaking iteration satisfies it, a completed one does
+        # not; the else-branch / fall-through path then carries the CONDITION "no element breaks" (exact, not merely
+        # the invariant), which is what generator completeness needs.
+        self.breaks = breaks
 
 
 class LoopCtx:
@@ -772,7 +777,7 @@ class Interp:
                     ty = INT
                 elif isinstance(cur, str):
                     ty = STR
-                elif name not in env:
+                elif name not in env or isinstance(cur, Poison):
                     env[name] = Poison(name, "assigned in loop body")
                     continue
                 else:
@@ -811,6 +816,10 @@ class Interp:
         live0 = (it.live, p.content(it.live)) if is_for and it.live is not None else None
         # arbitrary iteration
         self.havoc_for_loop(spec, s.body, env, assigned_names([s.target]) if is_for else ())
+        if self.interference is not None and any(isinstance(n, (ast.Yield, ast.YieldFrom))
+                                                 for b in s.body for n in ast.walk(b)):
+            # earlier iterations may have yielded: whoever consumes the generator ran in between (same as the foreach rule)
+            self.interference.after_yield(self, self.callctx, s)
         if live0 is not None:
             # inductive hypothesis of the obligation below: no earlier iteration changed the iterated container
             p.assume(p.content(live0[0]) == live0[1])
@@ -840,9 +849,13 @@ class Interp:
                 e = z3.Const(p.fresh_name("e"), es)
                 p.assume(z3.ForAll([e], done[e] == it.member(e)))
                 p.assume(done == z3.Lambda([e], it.member(e)))
+                if spec.breaks is not None:
+                    e2 = z3.Const(p.fresh_name("e"), es)
+                    p.condition(z3.ForAll([e2], z3.Implies(it.member(e2), z3.Not(_zb(spec.breaks(ctx, e2))))))
         else:
             more = self.test(self.eval(s.test, env))
         if more:
+            bx = _zb(spec.breaks(ctx, x)) if (is_for and spec.breaks is not None) else None
             if is_for:
                 p.ghost["__loopvars__"] = p.ghost.get("__loopvars__", []) + [(x, it)]
             frames = list(p.ghost.get("__loopframes__", []))
@@ -855,7 +868,12 @@ class Interp:
                     pass
             except _Break:
                 p.ghost["__loopframes__"] = frames
+                if bx is not None:
+                    p.oblige(f"loop{ordinal}.break-implies-break-condition", bx, self.where(s), "loop-break")
                 return  # leaves the loop with whatever state; code after loop runs
+            if bx is not None:
+                p.oblige(f"loop{ordinal}.completed-iteration-implies-no-break-condition", z3.Not(bx), self.where(s),
+                         "loop-break")
             p.ghost["__loopframes__"] = frames
             if live0 is not None:
                 # Python raises (dict/set) or misbehaves (list) when the iterated container changes
